@@ -406,8 +406,13 @@ class Ctx:
         self.known_hits = []
         self.broken = []       # broken obligations / correspondences: (kind, name, detail)
         self.notes = {}
-        self.findings = [f for f in json.load(open(os.path.join(VERIF, "known_findings.json")))["findings"]
-                         if f["property"] == prop]
+        allf = list(json.load(open(os.path.join(VERIF, "known_findings.json")))["findings"])
+        kd = os.path.join(VERIF, "known_findings.d")   # per-property files, same format (committed, never written at run time)
+        if os.path.isdir(kd):
+            for fn in sorted(os.listdir(kd)):
+                if fn.endswith(".json"):
+                    allf += json.load(open(os.path.join(kd, fn)))["findings"]
+        self.findings = [f for f in allf if f["property"] == prop]
         os.makedirs(os.path.join(BUILD, prop), exist_ok=True)
 
     # -- numpy generator derived from the same seed
